@@ -35,8 +35,9 @@ TRUSTED = ['Model/Relabel.v: hand-written Gallina model of relabeling.py (prepar
 ASSUMPTIONS = ['existing positions are sorted and no position or request is NaN (Pre); legacy lists with duplicates or '
                'infinities are inside the quantifier for order/placement, "all rows distinct and finite" is claimed '
                'only when the existing rows were (test_relabeling.test_with_dups pins that duplicates are left alone)',
-               'C20_total_stmt (no exception and Spec for every input) is refuted on the unchanged tree by four inputs '
-               '(known findings); proved on the append, no-renumbering and renumber-all-front paths; on the partial '
+               'C20_total_stmt (no exception and Spec for every input) is refuted by three inputs outside the valid range '
+               '(known findings: positions >= 2^53, top binade, an existing -inf); two further counterexamples were '
+               'repaired in /repo (0fbacc5, 488eb97) and are regression examples + corpus witnesses now; proved on the append, no-renumbering and renumber-all-front paths; on the partial '
                'renumbering path every explored input gets its own kernel-checked certificate from C20_checker_sound',
                'theorems about the no-renumbering path assume the existing positions are doubles (wf_fl: what decode '
                'produces) and fewer than 2^53 requests']
@@ -49,8 +50,10 @@ LEVEL_TEXT = ('Kernel-checked for all inputs: soundness of the result checker w.
               'correctness of the model (no exception and Spec) on (i) the append/empty-table path, (ii) EVERY input '
               'that takes the no-renumbering path, derived from the implementation\'s own is_valid_range test via '
               'monotonicity of IEEE rounding, (iii) the simple renumber-all path (requests before an invalid first '
-              'row); refutation of the unrestricted total statement by four concrete inputs.')
-LEVEL_NOTE = ('The general total-correctness statement stays a Definition (C20_total_restricted_stmt): for the partial '
+              'row); refutation of the unrestricted total statement by three concrete inputs; regression examples for the two '
+              'repaired defects.')
+LEVEL_NOTE = ('The total-correctness statement for valid positions stays a Definition (C20_total_restricted_stmt, no '
+              'counterexample known on the repaired code): for the partial '
               'renumbering path (_find_sparse_enough_range/_adjust_range: doubling ranges, thresholds 1.14^i/1.3^i) '
               'neither absence of exceptions nor Spec is proved; those inputs are covered by the per-case certificates '
               '(checker evaluated in Coq on every implementation result) and the bit-exact model correspondence.')
@@ -577,6 +580,14 @@ def search(ctx):
   if not hasattr(ctx, '_c20'):
     ctx._c20 = [(o, k, m, run_impl(o, k)) for (o, k, m) in gen_cases(ctx)]
     ctx._c20_rejected = None
+  # regression corpus first: witnesses of findings that were repaired in /repo must not fail again
+  for k in core.load_known():
+    if k['property'] == ID and k.get('kind') == 'fixed':
+      desc = replay(ctx, k['witness'])
+      ctx.bump('regression corpus:' + ('FAILS AGAIN' if desc else 'passes'))
+      if desc:
+        ctx.violation('regression:' + k['id'], 'witness of the repaired finding %s (%s) fails again: %s'
+                      % (k['id'], k.get('commit'), desc), k['witness'])
   perkind = {}
   for i, (orig, keys, mode, r) in enumerate(ctx._c20):
     j = judge(orig, keys, r)
@@ -811,13 +822,13 @@ def gen_history(rng):
 
 
 def engine_histories(ctx):
-  hists = [gen_history(ctx.rng) for _ in range(ctx.n(25, 400))]
+  # (repaired in 0fbacc5) 1074 times "insert above the first row" halves the first position down to the smallest
+  # subnormal; then one insert above the second row
+  hists = [[['add', [[None, None]]], ['front', 1074], ['before', 1]]]
+  hists += [gen_history(ctx.rng) for _ in range(ctx.n(25, 400))]
   # the same row hammered: crowding on one spot through user actions only
   hists.append([['add', [[None, None]] * 4]] + [['before', 2]] * ctx.n(150, 1200))
   hists.append([['add', [[None, None]] * 3]] + [['before', 0]] * ctx.n(60, 300) + [['before', 1]] * 20)
-  # 1074 times "insert above the first row" halves the first position down to the smallest subnormal; then one
-  # insert above the second row
-  hists.append([['add', [[None, None]]], ['front', 1074], ['before', 1]])
   nsteps = 0
   for h in hists:
     r = run_history(h)
